@@ -40,6 +40,20 @@ Definition hop_mag (o : hop) : Q :=
 Definition oreg_mag (r : oreg) : Q := Qmax (qmaxabs (or_pmin r)) (qmaxabs (or_pmax r)).
 Definition ostate_mag (s : ostate) : Q := oreg_mag (o_reg s).
 
+(* the model does not reduce fractions; the checker does, between steps (Qred x == x) *)
+Definition norm_region (r : region) : region :=
+  mkRegion (map Qred (pmin r)) (map Qred (pmax r)) (dims r) (units r) (tf r).
+Definition norm_mesh (m : mesh) : mesh :=
+  mkMesh (norm_region (reg m)) (n m) (bc m) (map (fun nr => (fst nr, norm_region (snd nr))) (subs m)).
+Definition norm_state (s : hstate) : hstate :=
+  match s with
+  | SRegion r => SRegion (norm_region r)
+  | SMesh m => SMesh (norm_mesh m)
+  | SField f => SField (mkF (norm_mesh (fmesh f)) (fnvdim f) (frmap f) (fashape f) (fvshape f))
+  end.
+Definition nstep (ip : bool) (o : hop) (s : hstate) : res hstate :=
+  match step ip o s with OK s' => OK (norm_state s') | Err e => Err e end.
+
 Definition is_rot (o : hop) : bool := match o with HRot _ _ _ _ => true | _ => false end.
 
 Definition ql_close (exact : bool) (sc : Q) (a b : list Q) : bool :=
@@ -72,9 +86,9 @@ Fixpoint check_steps (rot : bool) (s : hstate) (l : list c13_step) : bool :=
   | (ip, o, obs_ip, obs_cp) :: t =>
       let rot' := rot || is_rot o in
       let sc0 := Qmax (ostate_mag (observe s)) (hop_mag o) in
-      outcome_ok (negb rot') sc0 (step true o s) obs_ip &&
-      outcome_ok (negb rot') sc0 (step false o s) obs_cp &&
-      match step ip o s with
+      outcome_ok (negb rot') sc0 (nstep true o s) obs_ip &&
+      outcome_ok (negb rot') sc0 (nstep false o s) obs_cp &&
+      match nstep ip o s with
       | OK s' => check_steps rot' s' t
       | Err _ => check_steps rot s t
       end
